@@ -56,5 +56,4 @@ mod c19_blockpool;
 mod c08_interior;
 #[cfg(kani)]
 mod c37_glue;
-#[cfg(kani)]
-mod c29_map32;
+// c29_map32.rs is an abandoned experiment (needs a Map32 hook that was removed again); not compiled.
